@@ -30,14 +30,17 @@ EXPLANATION = (
     "same bytes, return old. "
     "R-C18-dispatch: in both up_mem blocks every READ/WRITE/AMO_* code is routed (tests evaluated per code) to a branch "
     "performing exactly the matching memory call with (addr, decoded length, data[0:8*len]) and the length decode is "
-    "len or data_nbits/8 when len==0 (evaluated for every len value). "
+    "len or data_nbits/8 when len==0 (evaluated for every len value); conditions guarding the type dispatch (e.g. an address "
+    "range check) are part of the routing: every in-range access (first bytes, ending one before / exactly at the end of the "
+    "memory) is served by its branch in BOTH memories. "
     "R-C18-echo: every response constructor passes the request's type_ and opaque (mapped through the MemRespMsg field "
     "order extracted from MemMsg.py), test=0, len=req.len for reads/AMOs, zero-extended read data / old AMO value. "
     "R-C18-pairing: one update_once block, one MagicMemoryFL instance, loop visits every port once, per port i the "
     "request is taken and the memory touched only under a guard implying request-valid AND response-ready of the SAME "
     "index, exactly one response on every path, ports wired index-to-index. "
-    "R-C18-endian: read/write byte helpers evaluated over symbolic bytes for 1..8 bytes at an aligned and a misaligned "
-    "address are little-endian inverses (byte loops, slice assignment, int.to_bytes/from_bytes and memoryview(...).cast() "
+    "R-C18-endian: read/write byte helpers evaluated over symbolic bytes for 1..8 bytes, for several array sizes len(arr) "
+    "(power of two or not, tiny) and aligned / misaligned addresses, touch exactly [addr, addr+nbytes) and are little-endian "
+    "inverses; read_mem hands out a copy, never a live view (byte loops, slice assignment, int.to_bytes/from_bytes and memoryview(...).cast() "
     "word views are modelled); a helper that only accepts data of exactly nbytes bytes is accepted iff every caller slices "
     "the data to its low bytes (helper and callers are judged together, also by R-C18-dispatch); "
     "read_mem/write_mem address exactly [addr, addr+size). "
@@ -438,21 +441,58 @@ def _ctx(repo, rel, cls):
 
 
 def _chain(c, block):
-    """the if/elif chain on req.type_ in the statement list `block`: [(test, body)], else-body, the If node"""
+    """The decision tree on req.type_ in the statement list `block`, flattened: [(test, body)] where `test` is the conjunction
+    of the conditions on the path to that arm (so guards enclosing / preceding the type tests, e.g. an address-range check,
+    are part of it), the bodies of rejecting else-arms, and the top If node."""
     defs = _up_defs(c)
-    tops = [st for st in block if isinstance(st, ast.If) and any(
-        isinstance(n, ast.Attribute) and n.attr == 'type_' and norm(n.value) == c.req for n in ast.walk(_expand(st.test, defs)))]
+
+    def about_type(e):
+        return any(isinstance(n, ast.Attribute) and n.attr == 'type_' and norm(n.value) == c.req for n in ast.walk(_expand(e, defs)))
+
+    def has_type_test(st):
+        return isinstance(st, ast.If) and any(isinstance(n, ast.If) and about_type(n.test) for n in ast.walk(st))
+    tops = [st for st in block if has_type_test(st)]
     if len(tops) != 1:
-        raise AnalysisError(f"{c.q}: expected one if/elif chain on {c.req}.type_, found {len(tops)}")
+        raise AnalysisError(f"{c.q}: expected one if/elif decision on {c.req}.type_, found {len(tops)}")
     node = tops[0]
-    arms = []
-    cur = node
-    while True:
-        arms.append((_expand(cur.test, defs), cur.body))
-        if len(cur.orelse) == 1 and isinstance(cur.orelse[0], ast.If):
-            cur = cur.orelse[0]
+    arms, els = [], []
+
+    def mk(conds, at):
+        parts = [t if pol else ast.UnaryOp(op=ast.Not(), operand=t) for t, pol in conds]
+        e = parts[0] if len(parts) == 1 else ast.BoolOp(op=ast.And(), values=parts)
+        ast.copy_location(e, at)
+        ast.fix_missing_locations(e)
+        return e
+
+    def leaf(body, conds, at, is_else):
+        inner = [st for st in body if has_type_test(st)]
+        if len(inner) == 1:
+            flat(inner[0], conds)
+        elif is_else and always_exits(body):
+            els.extend(body)
         else:
-            return arms, cur.orelse, node
+            arms.append((mk(conds, at), body))
+
+    def flat(ifnode, conds):
+        neg = list(conds)
+        cur = ifnode
+        while True:
+            t = _expand(cur.test, defs)
+            ast.copy_location(t, cur.test)
+            leaf(cur.body, neg + [(t, True)], cur.test, False)
+            neg.append((t, False))
+            if len(cur.orelse) == 1 and isinstance(cur.orelse[0], ast.If):
+                cur = cur.orelse[0]
+            else:
+                if cur.orelse:
+                    leaf(cur.orelse, neg, cur.test, True)
+                return
+    flat(node, [])
+    if any(x is c.acq for x in block):
+        c.pre = block[block.index(c.acq) + 1:block.index(node)] if block.index(c.acq) < block.index(node) else []
+    else:
+        c.pre = []
+    return arms, els, node
 
 
 def _block_of(c):
@@ -478,22 +518,62 @@ def _type_leaf(c, types, tval):
     return leaf
 
 
-def _route(c, types, arms, tval, r=None):
-    """index of the arm taken for type code tval, or None for the else arm"""
+DEFAULT_SCEN = dict(D=32, lv=0, addr=0)
+
+
+def _route(c, types, arms, tval, r=None, scen=None):
+    """index of the arm taken for type code tval (and, for arms guarded by address / length conditions, the access described
+    by `scen`: data width D, len field lv, address addr), or None for the rejecting else arm"""
+    sc = scen or DEFAULT_SCEN
     for k, (test, body) in enumerate(arms):
         if r is not None:
             r.evaluations += 1
-        if Interp({}, funcs=BASE_FUNCS, leaf=_type_leaf(c, types, tval)).ev(test):
+        v = _len_eval(c, getattr(c, 'pre', []), test, sc['D'], sc['lv'], tval=tval, types=types, addr=sc['addr'])
+        if isinstance(v, str):
+            raise AnalysisError(f"{c.q}: dispatch condition does not evaluate ({v}): {norm(test)[:80]}")
+        if v:
             return k
     return None
 
 
-def _len_eval(c, pre, expr, D, lv):
-    """value of `expr` after the length-decoding statements `pre`, for req.len == lv and data width D"""
+def _mem_size(c):
+    """the number of bytes the memory is built with (value of the MagicMemoryFL constructor argument under the defaults of
+    construct's parameters), or None"""
+    if len(c.fl_ctors) != 1 or len(c.fl_ctors[0].args) != 1:
+        return None
+    try:
+        v = Interp(_param_defaults(c), funcs=BASE_FUNCS).ev(c.fl_ctors[0].args[0])
+    except (AnalysisError, Raised):
+        return None
+    return v if isinstance(v, int) and not isinstance(v, bool) else None
+
+
+def _param_defaults(c):
+    out = {}
+    a = c.con.args
+    for p, d in zip(a.args[len(a.args) - len(a.defaults):], a.defaults):
+        try:
+            out[p.arg] = Interp({}, funcs=BASE_FUNCS).ev(d)
+        except (AnalysisError, Raised):
+            pass
+    return out
+
+
+def _len_eval(c, pre, expr, D, lv, tval=None, types=None, addr=0):
+    """value of `expr` after the length-decoding statements `pre`, for req.len == lv and data width D (and, when given,
+    req.type_ == tval, req.addr == addr)"""
     lenw = max(1, ((D >> 3) - 1).bit_length())
 
     def leaf(e):
         if isinstance(e, ast.Attribute):
+            if types is not None and isinstance(e.value, ast.Name) and e.value.id == 'MemMsgType':
+                if e.attr not in types:
+                    raise AnalysisError(f"unknown MemMsgType.{e.attr}")
+                return types[e.attr]
+            if tval is not None and e.attr == 'type_' and norm(e.value) == c.req:
+                return BV(4, tval)
+            if e.attr == 'addr' and norm(e.value) == c.req:
+                return BV(32, addr)
             if e.attr == 'len' and norm(e.value) == c.req:
                 return BV(lenw, lv)
             if e.attr == 'data_nbits' and (c.i in names_in(e.value) or c.req in names_in(e.value)):
@@ -510,7 +590,7 @@ def _len_eval(c, pre, expr, D, lv):
             keep.append(st)
             need |= {n.id for n in ast.walk(st) if isinstance(n, ast.Name) and isinstance(n.ctx, ast.Load)}
     pre = list(reversed(keep))
-    it = Interp({}, funcs=BASE_FUNCS, leaf=leaf)
+    it = Interp(_param_defaults(c), funcs=BASE_FUNCS, leaf=leaf)
     # closure variables of the update block: resolve them from the enclosing construct()
     try:
         cons_f = c.m.get_func(c.q.split('.')[0] + '.construct')
@@ -617,6 +697,23 @@ def rule_dispatch(repo):
                 continue
             if len(calls) != 1:
                 r.bad(c.m, c.q, cons, f"the branch performs {len(calls)} memory accesses for one request", arms[k][0].lineno)
+                continue
+            # every in-range access is served by that same branch, whatever its address / length (both memories therefore
+            # agree on which accesses they serve): first bytes, and accesses ending one byte before / exactly at the end
+            N = _mem_size(c)
+            dropped = None
+            if N is not None:
+                for lv, nb in ((0, 4), (1, 1), (3, 3)):
+                    for addr in (0, N - nb - 1, N - nb):
+                        k2 = _route(c, types, arms, code, r, dict(D=32, lv=lv, addr=addr))
+                        if k2 != k and dropped is None:
+                            dropped = (addr, nb, k2)
+            if dropped:
+                addr, nb, k2 = dropped
+                where = 'the rejecting else arm' if k2 is None else 'the branch `' + norm(arms[k2][0])[:60] + '`'
+                r.bad(c.m, c.q, cons, f"a {name} request of {nb} byte(s) at address {addr:#x} lies inside the memory of {N:#x} bytes "
+                      f"(last byte {addr + nb - 1:#x}) but is routed to {where} instead of being executed: an in-range access "
+                      f"must always be served (the sibling memory serves it, so the two memories disagree)", arms[k][0].lineno)
                 continue
             r.ok(c.m, c.q, cons)
         # 2. arguments of each memory call (once per call site)
@@ -1425,17 +1522,51 @@ def rule_read_pure(repo):
     return r
 
 
+class ImgView(SymMem):
+    """memoryview(<backing bytearray>): slices of it are live aliases of the image, not copies"""
+    def __init__(self, img):
+        if not isinstance(img, ImgMem):
+            raise AnalysisError("memoryview of a value outside the abstract domain")
+        super().__init__()
+        self.img = img
+        self.size = img.size
+
+    def load(self, idx):
+        lo, hi = ImgMem._bounds(idx)
+        return ('alias', lo, hi)
+
+    def store(self, idx, value):
+        self.img.store(idx, value)
+
+    def __repr__(self):
+        return 'memoryview(image)'
+
+
+def _img_copy(x):
+    """bytes(...) / bytearray(...) of an image slice or view: an independent copy"""
+    if isinstance(x, tuple) and len(x) == 3 and x[0] in ('alias', 'image'):
+        return ('image', x[1], x[2])
+    if isinstance(x, (ImgMem, ImgView)):
+        return ('image', 0, x.size)
+    raise AnalysisError("bytes()/bytearray() of a value outside the abstract domain")
+
+
 def _bits_ctor(nb, v=0):
     return ('Bits', int(nb), SB.of(v))
 
 
+# (array size N, address A): the bytes touched must be exactly [A, A+n) for EVERY array size -- sizes that are / are not a power
+# of two, addresses with bits set that N-1 lacks, tiny arrays, aligned and misaligned addresses
+ENDIAN_POINTS = [(1 << 20, 1000), (1 << 20, 1003), (0x18000, 0x8100), (0x18000, 0x8103), (0x10000, 0xff00), (8, 0), (3, 1)]
+
+
 def _byte_funcs():
-    return dict(BASE_FUNCS, Bits=_bits_ctor, memoryview=MemView, **{'int.from_bytes': int_from_bytes})
+    return dict(BASE_FUNCS, Bits=_bits_ctor, memoryview=MemView, len=len, **{'int.from_bytes': int_from_bytes})
 
 
-def _eval_write_helper(wr, funcs, BASE, n, extra):
-    """(ok, what was seen, steps) for write_bytearray_bits(arr, BASE, n, data of n+extra symbolic bytes)"""
-    mem = SymMem({})
+def _eval_write_helper(wr, funcs, BASE, n, extra, N=1 << 20):
+    """(ok, what was seen, steps) for write_bytearray_bits(arr, BASE, n, data of n+extra symbolic bytes), len(arr) == N"""
+    mem = SymMem({}, size=N)
     it = Interp({}, funcs=funcs)
     data = SB([f'D{k}' for k in range(n + extra)])
     try:
@@ -1487,9 +1618,11 @@ def rule_endian(repo):
     funcs = _byte_funcs()
     wide = _write_helper_on_wide_data(repo)
     loose = _unconfined_write_sites(repo)
-    for BASE, n in itertools.product((1000, 1003), range(1, 9)):
+    for (N, BASE), n in itertools.product(ENDIAN_POINTS, range(1, 9)):
+        if BASE + n > N:
+            continue
         # read
-        mem = SymMem({BASE + k: f'M{k}' for k in range(-2, n + 3)})
+        mem = SymMem({BASE + k: f'M{k}' for k in range(-2, n + 3) if 0 <= BASE + k < N}, size=N)
         it = Interp({}, funcs=funcs)
         try:
             got = it.apply(Closure(rd, {}), [mem, BV(16, BASE), n])
@@ -1497,7 +1630,7 @@ def rule_endian(repo):
             got = f'raises {ex.what}'
         r.evaluations += it.steps
         exp = ('Bits', 8 * n, SB([f'M{k}' for k in range(n)]))
-        cons = f'read_bytearray_bits(arr, A={BASE}, {n})'
+        cons = f'read_bytearray_bits(arr[{N:#x}], A={BASE:#x}, {n})'
         if got == exp and not mem.stores:
             r.ok(bm, 'read_bytearray_bits', cons)
         elif mem.stores:
@@ -1508,9 +1641,9 @@ def rule_endian(repo):
         # write: data of exactly n bytes must always work; data wider than n bytes (only the low n bytes may be stored) must
         # work unless EVERY caller confines the data to the low n bytes -- helper and callers are judged together
         for extra in (0, 2):
-            ok, seen, steps = _eval_write_helper(wr, funcs, BASE, n, extra)
+            ok, seen, steps = _eval_write_helper(wr, funcs, BASE, n, extra, N)
             r.evaluations += steps
-            cons = f'write_bytearray_bits(arr, A={BASE}, {n}, <{n + extra} bytes>)'
+            cons = f'write_bytearray_bits(arr[{N:#x}], A={BASE:#x}, {n}, <{n + extra} bytes>)'
             if ok:
                 r.ok(bm, 'write_bytearray_bits', cons)
             elif extra and not loose:
@@ -1535,11 +1668,12 @@ def rule_endian(repo):
         if len(ps) != 3 or f.args.vararg or f.args.kwarg:
             raise AnalysisError(f"MagicMemoryFL.{meth}: unexpected signature")
         me = ps[0]
-        bad = None
+        bad = alias = None
         for a, z in itertools.product((0, 1, 7), (0, 1, 5)):
             img = ImgMem()
             data = [('byte', k) for k in range(z)]
-            it = FnInterp({f'{me}.{store_attr}': img}, funcs=dict(BASE_FUNCS, len=len))
+            it = FnInterp({f'{me}.{store_attr}': img}, funcs=dict(BASE_FUNCS, len=len, memoryview=ImgView, bytes=_img_copy,
+                                                                  bytearray=_img_copy))
             try:
                 got = it.apply(Closure(f, {f'{me}.{store_attr}': img}), [None, a, z if meth == 'read_mem' else data])
                 err = None
@@ -1549,6 +1683,10 @@ def rule_endian(repo):
             if meth == 'read_mem':
                 ok = err is None and got == ('image', a, a + z) and not img.writes
                 seen = f"returns {got!r}" + (f", writes {img.writes}" if img.writes else '')
+                if err is None and (isinstance(got, (ImgMem, ImgView)) or (isinstance(got, tuple) and got and got[0] == 'alias')):
+                    alias = f"for addr={a}, size={z}: read_mem hands out {got!r}, a live view of the backing bytearray, not a copy: " \
+                            f"a write processed later changes an image that was already returned"
+                    break
             else:
                 ok = err is None and img.writes == [(a, a + z, data)]
                 seen = f"writes {[(lo, hi) for lo, hi, _ in img.writes]}" + \
@@ -1557,6 +1695,12 @@ def rule_endian(repo):
                 bad = (a, z, err or seen)
                 break
         cons = f'{meth}: image[addr : addr+size]'
+        if alias:
+            r.bad(fm, f'MagicMemoryFL.{meth}', 'read_mem returns a copy', alias, f.lineno)
+        elif meth == 'read_mem':
+            r.ok(fm, f'MagicMemoryFL.{meth}', 'read_mem returns a copy')
+        if alias:
+            continue
         if bad:
             r.bad(fm, f'MagicMemoryFL.{meth}', cons, f"for addr={bad[0]}, size={bad[1]}: {bad[2]}; must "
                   f"{'return' if meth == 'read_mem' else 'assign'} exactly bytes [{bad[0]}:{bad[0] + bad[1]}] of the backing "
@@ -2166,6 +2310,14 @@ MUTANTS = [
     dict(name='fl-read-memo-survives-writes', file=FL, rule='R-C18-read-pure', edits=_memo_edits(
         "    key = ( int(addr), nbytes )\n    if key != s.last_rd_key:\n      s.last_rd_key = key\n      s.last_rd_data = read_bytearray_bits( s.mem, addr, nbytes )\n    return s.last_rd_data.clone()\n",
         False)),
+    dict(name='helpers-wrap-address-with-len-mask', file=BYTES, rule='R-C18-endian', edits=[
+        dict(file=BYTES, old="    begin = int(addr)\n", new="    begin = int(addr) & (len(arr) - 1)\n"),
+        dict(file=BYTES, old="    addr = int(addr)\n    end  = addr + nbytes", new="    addr = int(addr) & (len(arr) - 1)\n    end  = addr + nbytes")]),
+    _m('write-helper-wraps-address-modulo', BYTES, "    addr = int(addr)\n    end  = addr + nbytes", "    addr = int(addr) % (len(arr) >> 1)\n    end  = addr + nbytes", 'R-C18-endian'),
+    _m('read-mem-returns-live-view', FL, "    return s.mem[ addr : addr + size ]", "    return memoryview( s.mem )[ addr : addr + size ]", 'R-C18-endian'),
+    _m('read-mem-returns-the-array', FL, "    return s.mem[ addr : addr + size ]", "    return s.mem", 'R-C18-endian'),
+    _m('cl-range-guard-off-by-one', CL, "          if   req.type_ == MemMsgType.READ:", "          if   int(req.addr) + len_ >= mem_nbytes:\n            resp = resp_classes[i]( req.type_, req.opaque, 0, req.len, 0 )\n          elif req.type_ == MemMsgType.READ:", 'R-C18-dispatch'),
+    _m('stream-range-guard-drops-upper-half', STREAM, "          if   req.type_ == MemMsgType.READ:", "          if   int(req.addr) >= mem_nbytes >> 1:\n            resp = resp_classes[i]( req.type_, req.opaque, 0, req.len, 0 )\n          elif req.type_ == MemMsgType.READ:", 'R-C18-dispatch'),
     # --- purity / FIFO shape
     _m('deq-pipe-no-copy', DELAY, "    s.pipeline[0] = clone_deepcopy(msg)\n\n  @non_blocking( lambda s: s.pipeline[-1] is not None )", "    s.pipeline[0] = msg\n\n  @non_blocking( lambda s: s.pipeline[-1] is not None )", 'R-C18-purity'),
     _m('deq-pipe-rotates-when-slot0-empty', DELAY, "        if s.pipeline[-1] is None:\n          s.pipeline.rotate()", "        if s.pipeline[0] is None:\n          s.pipeline.rotate()", 'R-C18-purity'),
@@ -2243,6 +2395,9 @@ EQUIV = [
     dict(name='fl-read-memo-keyed-by-addr-and-size-invalidated', file=FL, edits=_memo_edits(
         "    key = ( int(addr), nbytes )\n    if key != s.last_rd_key:\n      s.last_rd_key = key\n      s.last_rd_data = read_bytearray_bits( s.mem, addr, nbytes )\n    return s.last_rd_data.clone()\n",
         True)),
+    _m('cl-range-guard-correct-bound', CL, "          if   req.type_ == MemMsgType.READ:", "          if   int(req.addr) + len_ > mem_nbytes:\n            resp = resp_classes[i]( req.type_, req.opaque, 0, req.len, 0 )\n          elif req.type_ == MemMsgType.READ:"),
+    _m('read-mem-copy-of-view', FL, "    return s.mem[ addr : addr + size ]", "    return bytearray( memoryview( s.mem )[ addr : addr + size ] )"),
+    _m('helper-address-mask-identity', BYTES, "    begin = int(addr)\n", "    begin = int(addr) & ((1 << 64) - 1)\n"),
     _m('stall-rdy-conjuncts-swapped', STALL, "lambda s: s.stall_rgen.random() > s.stall_prob and s.send.rdy()", "lambda s: s.send.rdy() and s.stall_rgen.random() > s.stall_prob"),
 ]
 
